@@ -106,6 +106,42 @@ func ruleO1(c *Ctx) {
 			continue
 		}
 		cases := typeSwitchCases(fd, pk, d.first)
+		// the dispatcher may delegate to a helper holding the type switch (Walk -> walkChildren)
+		if root := c.P.Func(d.pkg, d.fn); root != nil {
+			seenH := map[*ssa.Function]bool{root: true}
+			work := []*ssa.Function{root}
+			for i := 0; i < len(work) && i < 6; i++ {
+				eachInstr(work[i], func(in ssa.Instruction) {
+					ci, ok := in.(ssa.CallInstruction)
+					if !ok {
+						return
+					}
+					cal := ci.Common().StaticCallee()
+					if cal == nil || seenH[cal] || fnPkgPath(cal) != fnPkgPath(root) || cal.Syntax() == nil {
+						return
+					}
+					// only helpers that receive the dispatched node itself (same interface type)
+					takesNode := false
+					for _, a := range ci.Common().Args {
+						for _, prm := range root.Params {
+							if a == prm {
+								takesNode = true
+							}
+						}
+					}
+					if !takesNode {
+						return
+					}
+					seenH[cal] = true
+					work = append(work, cal)
+					if hd, ok := cal.Syntax().(*ast.FuncDecl); ok && hd.Body != nil {
+						for k := range typeSwitchCases(hd, pk, true) {
+							cases[k] = true
+						}
+					}
+				})
+			}
+		}
 		for _, w := range d.want {
 			key := fmt.Sprintf("%s: arm for %s", d.fn, w)
 			pos := c.P.Pos(fd.Pos())
@@ -616,7 +652,13 @@ func ruleO7(c *Ctx) {
 				if e.base != a.base {
 					continue
 				}
-				if fn.Name() != "stmt" {
+				pushDominates := false
+				for _, p := range pushes {
+					if instrDominates(p, a.call) {
+						pushDominates = true
+					}
+				}
+				if pushDominates {
 					// comprehension: only the clause whose binding follows a push in straight line
 					relevant := false
 					for _, p := range pushes {
